@@ -646,6 +646,134 @@ def run_process(program, rep, prefix='C09'):
 PROCESS_LOOP_BOUND = 1
 
 
+def _enclosing_loops(func):
+    out = {}
+    def rec(n, loops):
+        for ch in ast.iter_child_nodes(n):
+            out[id(ch)] = loops
+            rec(ch, loops + [ch] if isinstance(ch, (ast.For, ast.While))
+                else loops)
+    rec(func, [])
+    return out
+
+
+def check_alias(program, rep, prefix='C09'):
+    """A coroutine body may call start()/kill() while process() is running.
+    If one method REBINDS a table of the processor (self.X = ...) and another
+    keeps a local alias of that table across a step of user code, the alias
+    goes stale: later updates of the frame land in an abandoned container."""
+    cp = program.cls('CoroutineProcessor')
+    init = cp.methods.get('__init__')
+    tables = set()
+    for s in ast.walk(init.node):
+        if isinstance(s, ast.Assign) and isinstance(
+                s.value, (ast.List, ast.Dict, ast.Set, ast.Call, ast.ListComp,
+                          ast.DictComp, ast.SetComp)):
+            for t in s.targets:
+                if isinstance(t, ast.Attribute) and isinstance(
+                        t.value, ast.Name) and t.value.id == 'self':
+                    tables.add(t.attr)
+    rebinders = {}
+    aliases = {}
+    for m in cp.methods.values():
+        if m.kind != 'method' or m.name == '__init__':
+            continue
+        loops = _enclosing_loops(m.node)
+        callouts = [n for n in ast.walk(m.node) if isinstance(n, ast.Call)
+                    and ((isinstance(n.func, ast.Name) and n.func.id == 'next')
+                         or (isinstance(n.func, ast.Attribute)
+                             and n.func.attr in ('send', '__next__')))]
+        for s in ast.walk(m.node):
+            if not isinstance(s, ast.Assign):
+                continue
+            tg = [t for tt in s.targets for t in (
+                tt.elts if isinstance(tt, ast.Tuple) else [tt])]
+            for t in tg:
+                if isinstance(t, ast.Attribute) and isinstance(
+                        t.value, ast.Name) and t.value.id == 'self' \
+                        and t.attr in tables:
+                    rebinders.setdefault(t.attr, []).append((m, s))
+            if len(s.targets) == 1 and isinstance(s.targets[0], ast.Name) \
+                    and isinstance(s.value, ast.Attribute) and isinstance(
+                        s.value.value, ast.Name) and s.value.value.id == \
+                    'self' and s.value.attr in tables and callouts:
+                nm = s.targets[0].id
+                if sum(1 for x in ast.walk(m.node) if isinstance(
+                        x, ast.Assign) and any(isinstance(t, ast.Name)
+                                               and t.id == nm
+                                               for t in x.targets)) != 1:
+                    continue
+                for u in ast.walk(m.node):
+                    if isinstance(u, ast.Name) and u.id == nm and isinstance(
+                            u.ctx, ast.Load):
+                        for co in callouts:
+                            common = [l for l in loops.get(id(u), [])
+                                      if l in loops.get(id(co), [])]
+                            if u.lineno > co.lineno or common:
+                                aliases.setdefault(s.value.attr, []).append(
+                                    (m, s, u))
+                                break
+    n = 0
+    for x in sorted(tables):
+        n += 1
+        rb, al = rebinders.get(x, []), aliases.get(x, [])
+        if rb and al:
+            (m1, s1), (m2, s2, u) = rb[0], al[0]
+            rep.bad(f'{prefix}.alias', m2.where, s2,
+                    f'{m2.qualname} keeps the local alias `{norm(s2)}` across '
+                    f'a step of user code (used again at line {u.lineno}) '
+                    f'while {m1.qualname} rebinds the table '
+                    f'(`{norm(s1)[:60]}`, line {s1.lineno}): a start()/kill() '
+                    'issued from inside a coroutine body swaps the container '
+                    'and the rest of the frame updates the abandoned one - '
+                    'coroutines parked there are never woken nor released',
+                    line=s2.lineno)
+        else:
+            rep.ok(f'{prefix}.alias', cp.methods['process'].where,
+                   f'self.{x}', 'not both rebound by a method and aliased '
+                   'across a coroutine step', nontrivial=False)
+    rep.floor(f'{prefix}.alias', 'tables of the processor', n, 4)
+
+
+def check_strong_and_resume(program, rep):
+    mod = program.cls('CoroutineProcessor').module
+    site = mod.relpath
+    def _is_weak(n):
+        d = dotted(n.func)
+        r = program.lookup(mod, d) if d else None
+        return bool(r and r[0] == 'external' and str(r[1]).split('.')[0]
+                    == 'weakref')
+    weak = [n for n in ast.walk(mod.tree) if isinstance(n, ast.Call)
+            and _is_weak(n)]
+    rep.check(not weak, 'C09.strong', site, weak[0] if weak else 'weakref.*',
+              'promises and tables hold their generators strongly',
+              'a weak reference is taken in the coroutine module: a promise '
+              '(or the processor) no longer keeps the generator alive - '
+              'after the coroutine finished or was killed, state / kill on '
+              'the promise fail instead of answering TERMINATED / ValueError',
+              line=weak[0].lineno if weak else None)
+    closers = []
+    for c in (program.cls('CoroutineProcessor'),
+              program.cls('CoroutinePromise')):
+        for m in c.methods.values():
+            for n in ast.walk(m.node):
+                if isinstance(n, ast.Call) and isinstance(
+                        n.func, ast.Attribute) and n.func.attr in (
+                            'close', 'throw') and not (
+                                isinstance(n.func.value, ast.Name)
+                                and n.func.value.id == 'self'):
+                    closers.append((m, n))
+    rep.check(not closers, 'C09.resume',
+              closers[0][0].where if closers else site,
+              closers[0][1] if closers else 'generator.close()',
+              'generators are only advanced (next), never closed or thrown '
+              'into',
+              'a generator is closed / thrown into by the processor: a killed '
+              'coroutine that is started again can no longer carry on from '
+              'where it stopped (its body is over, finally blocks already '
+              'ran)', line=closers[0][1].lineno if closers else None)
+
+
 def run(program, rep, tier):
     global PROCESS_LOOP_BOUND
     # thorough: two consecutive iterations of each loop of process()
@@ -653,6 +781,8 @@ def run(program, rep, tier):
     rep.extra['process_loop_bound'] = PROCESS_LOOP_BOUND
     run_methods(program, rep)
     run_process(program, rep)
+    check_alias(program, rep)
+    check_strong_and_resume(program, rep)
     # PAUSED exactly for positive waits: the sleep test of process() (C08)
     import copy
     from rules import c08
